@@ -29,4 +29,10 @@ theorem dirmap_key_error_iff (t : Ty) (k : List UInt8) (hd : isDirMap t = true) 
 example : Gen.tr_IsLegalUnixFilename [0x2E] = some "reserved name" ∧ legalName [0x2E] = false ∧
     (Gen.tr_IsLegalUnixFilename [0x61]).isNone = true ∧ legalName [0x61] = true := by decide
 
+/-- FAIL CLOSED (second audit pass, X2/X3): the tie theorems of this file are about the
+definition(s) TRANSLATED FROM THE TREE UNDER TEST, not about the committed default the
+extractor falls back to when the source leaves the translated subset – in that
+case this obligation breaks and `./check` reports it (besides the note). -/
+theorem translated_from_tree_under_test : Gen.tr_IsLegalUnixFilename_extracted = true := by decide
+
 end Props.C17
